@@ -12,6 +12,9 @@ import (
 	"sort"
 	"strconv"
 	"strings"
+	"sync"
+	"sync/atomic"
+	"time"
 
 	"reduction.dev/reduction/dkv/bloom"
 	"reduction.dev/reduction/dkv/kv"
@@ -81,12 +84,15 @@ type c17State struct {
 	fresh    *sst.Table
 	reopened *sst.Table
 	damaged  *sst.Table
+	satur    *sst.Table
+	bloomAns map[string]bool
 	tables   []*sst.Table
 	runInput []c17Entry
 	ran      bool
 	keep     []any // tables must stay reachable: their GC cleanup deletes the file
 	w        *wal.Writer
 	savedW   *wal.Writer
+	pendingW *wal.Writer
 }
 
 func (s *c17State) fileOf(t *sst.Table) []byte {
@@ -99,6 +105,8 @@ func (s *c17State) fileOf(t *sst.Table) []byte {
 
 func (s *c17State) selectTable(t *sst.Table) {
 	s.fresh = t
+	s.bloomAns = nil
+	s.satur = nil
 	// re-open through the JSON form of the document, as a checkpoint does
 	data, err := json.Marshal(t.Document())
 	if err != nil {
@@ -218,6 +226,76 @@ func c17Reads(fs storage.FileSystem, h wal.Handle) (res string) {
 	return "ok " + show()
 }
 
+// c17GateFS opens files whose first ReadAt waits for a gate: lets two first readers of a re-opened table overlap.
+type c17GateFS struct {
+	storage.FileSystem
+	entered chan struct{}
+	gate    chan struct{}
+	once    *sync.Once
+}
+
+type c17GateFile struct {
+	storage.File
+	fs *c17GateFS
+}
+
+func (g *c17GateFS) Open(path string) storage.File {
+	return &c17GateFile{File: g.FileSystem.Open(path), fs: g}
+}
+
+func (f *c17GateFile) ReadAt(p []byte, off int64) (int, error) {
+	f.fs.once.Do(func() {
+		close(f.fs.entered)
+		select {
+		case <-f.fs.gate:
+		case <-time.After(5 * time.Second):
+		}
+	})
+	return f.File.ReadAt(p, off)
+}
+
+// c17ConcurrentFirstReads re-opens the table from its document and lets a second Get arrive while the first one is
+// still loading the footer; both must answer like a sequential Get.
+func (s *c17State) concurrentFirstReads(key []byte) string {
+	g := &c17GateFS{FileSystem: s.fs, entered: make(chan struct{}), gate: make(chan struct{}), once: &sync.Once{}}
+	t := sst.NewTableFromDocument(g, &kv.AllDataOwnership{}, s.fresh.Document())
+	s.keep = append(s.keep, t)
+	res := make(chan string, 2)
+	get := func() {
+		defer func() {
+			if r := recover(); r != nil {
+				res <- "panic " + strings.ReplaceAll(fmt.Sprint(r), "\n", " ")
+			}
+		}()
+		res <- c17Get(t, key)
+	}
+	go get()
+	select {
+	case <-g.entered:
+	case <-time.After(2 * time.Second): // bloom gate before any read cannot happen: metadata load reads first
+	}
+	go get()
+	time.Sleep(2 * time.Millisecond)
+	close(g.gate)
+	var got []string
+	for i := 0; i < 2; i++ {
+		select {
+		case r := <-res:
+			got = append(got, r)
+		case <-time.After(5 * time.Second):
+			got = append(got, "timeout")
+		}
+	}
+	if got[0] == got[1] {
+		return got[0]
+	}
+	sort.Strings(got)
+	return strings.Join(got, " | ")
+}
+
+// coverage counters (evidence): absent-key lookups that ran the real index search + scan
+var c17PastBloom, c17RealFP atomic.Int64
+
 func c17Impl(c lib.Case) []string {
 	s := &c17State{fs: storage.NewMemoryFilesystem()}
 	s.tw = sst.NewTableWriter(s.fs, 0)
@@ -246,7 +324,7 @@ func (s *c17State) do(op string) (out []string) {
 		u := func(i int) uint64 { v, _ := strconv.ParseUint(f[i], 10, 64); return v }
 		if s.fresh == nil {
 			switch f[0] {
-			case "info", "get", "rget", "scan", "rscan", "bloom", "rdoc":
+			case "info", "get", "rget", "scan", "rscan", "bloom", "rdoc", "saturate", "docjson", "rget2":
 				// no table selected (only in shrunk cases): the model answers the same
 				out = append(out, "loaderr")
 				return out
@@ -264,14 +342,50 @@ func (s *c17State) do(op string) (out []string) {
 			out = append(out, "ok")
 		case "info":
 			out = append(out, s.info(s.fresh))
-		case "get":
-			out = append(out, c17Get(s.fresh, lib.UnHex(f[1])))
-		case "rget":
-			out = append(out, c17Get(s.reopened, lib.UnHex(f[1])))
+		case "get", "rget":
+			t := s.fresh
+			if f[0] == "rget" {
+				t = s.reopened
+			}
+			r := c17Get(t, lib.UnHex(f[1]))
+			if r == "notfound" && s.bloomAns[f[1]] {
+				c17RealFP.Add(1) // an absent key that the real filter let through
+			}
+			out = append(out, r)
 		case "scan":
 			out = append(out, c17Scan(s.fresh, lib.UnHex(f[1])))
 		case "rscan":
 			out = append(out, c17Scan(s.reopened, lib.UnHex(f[1])))
+		case "saturate":
+			// the selected table's file with every bit of the bloom block set, re-opened from the document:
+			// every lookup passes the filter, so absent keys reach SearchIndex.Search and the scan loop
+			d := s.fresh.Document()
+			b := append([]byte(nil), s.fileOf(s.fresh)...)
+			if uint64(len(b)) >= d.EntriesSize+8 {
+				bits := binary.LittleEndian.Uint32(b[d.EntriesSize:])
+				lo := d.EntriesSize + 8
+				hi := lo + uint64((bits+63)/64)*8
+				for i := lo; i < hi && i < uint64(len(b)); i++ {
+					b[i] = 0xff
+				}
+			}
+			fs2 := storage.NewMemoryFilesystem()
+			file := fs2.New(strings.TrimPrefix(d.URI, "memory://"))
+			file.Write(b)
+			file.Save()
+			s.satur = sst.NewTableFromDocument(fs2, &kv.AllDataOwnership{}, d)
+			s.keep = append(s.keep, s.satur)
+			out = append(out, fmt.Sprintf("size=%d fnv=%d", len(b), c17Fnv(b)))
+		case "sget":
+			if s.satur == nil {
+				out = append(out, "loaderr")
+				return out
+			}
+			r := c17Get(s.satur, lib.UnHex(f[1]))
+			if r == "notfound" {
+				c17PastBloom.Add(1)
+			}
+			out = append(out, r)
 		case "corrupt":
 			// a damaged copy of the selected table's file under the same name in a separate file system
 			d := s.fresh.Document()
@@ -309,12 +423,27 @@ func (s *c17State) do(op string) (out []string) {
 			}()
 		case "rdoc":
 			d := s.reopened.Document()
-			out = append(out, fmt.Sprintf("%s %s %d %d", lib.Hex(d.StartKey), lib.Hex(d.EndKey), d.Size, d.EntriesSize))
+			out = append(out, fmt.Sprintf("%s %s %d %d %d %d", lib.Hex(d.StartKey), lib.Hex(d.EndKey), d.Size, d.EntriesSize, d.StartSeqNum, d.EndSeqNum))
+		case "rget2":
+			out = append(out, s.concurrentFirstReads(lib.UnHex(f[1])))
+		case "docjson":
+			// the exact text encoding/json writes for the document (what dkv/recovery stores in a checkpoint)
+			data, err := json.Marshal(s.fresh.Document())
+			if err != nil {
+				out = append(out, "err")
+				return out
+			}
+			out = append(out, string(data))
 		case "bloom":
 			d := s.fresh.Document()
 			cur := &storage.Cursor{File: s.fs.Open(d.URI)}
 			cur.Move(int64(d.EntriesSize))
-			out = append(out, strconv.FormatBool(bloom.Decode(cur).MightHave(lib.UnHex(f[1]))))
+			ans := bloom.Decode(cur).MightHave(lib.UnHex(f[1]))
+			if s.bloomAns == nil {
+				s.bloomAns = map[string]bool{}
+			}
+			s.bloomAns[f[1]] = ans
+			out = append(out, strconv.FormatBool(ans))
 		case "run":
 			s.runInput = c17ParseEntries(f[2])
 			s.ran = true
@@ -370,6 +499,20 @@ func (s *c17State) do(op string) (out []string) {
 				return out
 			}
 			s.savedW = old
+			out = append(out, "ok")
+		case "wrotl":
+			// as DB.Checkpoint does: rotate under the lock, Save the old writer later (after more work on the new one)
+			s.pendingW = s.w
+			s.w = s.pendingW.Rotate(s.fs)
+			out = append(out, "ok")
+		case "wsavel":
+			if s.pendingW != nil {
+				if err := s.pendingW.Save(); err != nil {
+					out = append(out, "err")
+					return out
+				}
+				s.savedW, s.pendingW = s.pendingW, nil
+			}
 			out = append(out, "ok")
 		case "wfile":
 			if s.savedW == nil {
@@ -530,8 +673,123 @@ func c17TableOps(r *lib.Rng, es []c17Entry, maxLookups int) []string {
 	for _, p := range prefixes {
 		ops = append(ops, lib.Pick(r, []string{"scan ", "rscan "})+lib.Hex(p))
 	}
-	ops = append(ops, "rdoc")
+	if len(es) > 0 {
+		ops = append(ops, "rget2 "+lib.Hex(lib.Pick(r, es).k))
+	}
+	ops = append(ops, "rdoc", "saturate")
+	for _, k := range c17Lookups(r, es, maxLookups) {
+		ops = append(ops, "sget "+lib.Hex(k))
+	}
 	return ops
+}
+
+// c17Murmur is an independent MurmurHash3 x86_32 (reference algorithm), used only to FIND candidate keys; whether a
+// candidate really passes the table's filter is observed by the `bloom` op on the real file and on the model.
+func c17Murmur(data []byte, seed uint32) uint32 {
+	h := seed
+	n := len(data) / 4
+	for i := 0; i < n; i++ {
+		k := binary.LittleEndian.Uint32(data[4*i:])
+		k *= 0xcc9e2d51
+		k = k<<15 | k>>17
+		k *= 0x1b873593
+		h ^= k
+		h = h<<13 | h>>19
+		h = h*5 + 0xe6546b64
+	}
+	var k uint32
+	tail := data[4*n:]
+	switch len(tail) {
+	case 3:
+		k ^= uint32(tail[2]) << 16
+		fallthrough
+	case 2:
+		k ^= uint32(tail[1]) << 8
+		fallthrough
+	case 1:
+		k ^= uint32(tail[0])
+		k *= 0xcc9e2d51
+		k = k<<15 | k>>17
+		k *= 0x1b873593
+		h ^= k
+	}
+	h ^= uint32(len(data))
+	h ^= h >> 16
+	h *= 0x85ebca6b
+	h ^= h >> 13
+	h *= 0xc2b2ae35
+	h ^= h >> 16
+	return h
+}
+
+const c17BloomBits, c17BloomHashes = 32 * 1024, 5
+
+// c17FindFP searches absent keys base++counter that a filter holding the keys of es would accept.
+func c17FindFP(bits []bool, present map[string]bool, base []byte, budget int) []byte {
+	cand := append(append([]byte(nil), base...), 0, 0, 0)
+	for c := 0; c < budget; c++ {
+		cand[len(base)], cand[len(base)+1], cand[len(base)+2] = byte(c), byte(c>>8), byte(c>>16)
+		ok := true
+		for h := uint32(0); h < c17BloomHashes; h++ {
+			if !bits[c17Murmur(cand, h)%c17BloomBits] {
+				ok = false
+				break
+			}
+		}
+		if ok && !present[string(cand)] {
+			return append([]byte(nil), cand...)
+		}
+	}
+	return nil
+}
+
+// c17GenBigTable: 600–1000 mixed keys (tombstones, binary keys), so that genuine false positives of the real
+// 32768-bit filter exist and can be found: absent keys before the first key, after entries at the start / end / middle
+// of an index block, and after the last key reach the real search and scan without touching the file.
+func c17GenBigTable(r *lib.Rng, tier string) lib.Case {
+	es := c17Run(r, r.Range(600, 1000), 6)
+	c := lib.Case{Header: "M C17", Ops: []string{"tbl " + c17ShowEntries(es)}, Tags: []string{"table", "multi-index", "bigtable"}}
+	bits := make([]bool, c17BloomBits)
+	present := map[string]bool{}
+	for _, e := range es {
+		present[string(e.k)] = true
+		for h := uint32(0); h < c17BloomHashes; h++ {
+			bits[c17Murmur(e.k, h)%c17BloomBits] = true
+		}
+	}
+	var bases [][]byte
+	if first := es[0].k; len(first) > 0 && first[len(first)-1] > 0 {
+		bases = append(bases, c17Pred(first)) // below the first key (the D19 situation)
+	}
+	for j := 0; j < 4; j++ {
+		i := r.Intn(len(es))
+		switch j {
+		case 0:
+			i = i/16*16 + 15 // last entry of an index block
+		case 1:
+			i = i / 16 * 16 // first entry of an index block
+		}
+		i = min(i, len(es)-1)
+		bases = append(bases, append(append([]byte(nil), es[i].k...), 0))
+	}
+	bases = append(bases, append(append([]byte(nil), es[len(es)-1].k...), 0xff)) // above the last key
+	found := 0
+	for _, b := range bases {
+		if k := c17FindFP(bits, present, b, 600000); k != nil {
+			found++
+			h := lib.Hex(k)
+			c.Ops = append(c.Ops, "bloom "+h, "get "+h, "rget "+h)
+		}
+	}
+	for j := 0; j < 6; j++ {
+		h := lib.Hex(lib.Pick(r, es).k)
+		c.Ops = append(c.Ops, "get "+h, "bloom "+h)
+	}
+	c.Ops = append(c.Ops, "scan "+lib.Hex(lib.Pick(r, es).k[:0]), "rdoc", "docjson memory:///000000.sst", "info")
+	if found > 0 {
+		c.Tags = append(c.Tags, "real-fp")
+	}
+	return c
 }
 
 func c17Size(e c17Entry) int { return 17 + len(e.k) + len(e.v) }
@@ -560,7 +818,7 @@ func c17GenTable(r *lib.Rng, tier string) lib.Case {
 		}
 		c.Ops = append(c.Ops, "cget "+lib.Hex(c17Key(r)), "cscan -")
 	}
-	c.Ops = append(c.Ops, "info")
+	c.Ops = append(c.Ops, "docjson memory:///000000.sst", "info")
 	if len(es) > 16 {
 		c.Tags = append(c.Tags, "multi-index")
 	}
@@ -670,8 +928,54 @@ func c17GenWal(r *lib.Rng, tier string) lib.Case {
 			c.Ops = append(c.Ops, fmt.Sprintf("wtrunc %d", a))
 			truncs++
 		default:
-			c.Ops = append(c.Ops, "wrot")
 			rots++
+			if r.Chance(1, 3) {
+				// late save: more work on the next writer (which shares the segment buffers) before the old one is saved
+				c.Ops = append(c.Ops, "wrotl")
+				if r.Bool() && seq > 0 {
+					// the checkpoint pattern: an in-flight flush commits on the successor (Truncate drops carried
+					// segments), a memtable rotation cuts, new writes fill the fresh active buffer — then the save
+					a := seq - 1
+					if len(cuts) > 0 && r.Chance(1, 3) {
+						a = lib.Pick(r, cuts)
+					}
+					c.Ops = append(c.Ops, fmt.Sprintf("wtrunc %d", a))
+					truncs++
+					if r.Bool() {
+						c.Ops = append(c.Ops, fmt.Sprintf("wput %s %s %d", lib.Hex(c17Key(r)), lib.Hex(r.Bytes(r.Intn(8))), seq))
+						seq++
+					}
+					c.Ops = append(c.Ops, "wcut")
+					cuts = append(cuts, seq-1)
+					for j := r.Range(1, 5); j > 0; j-- {
+						if r.Chance(1, 4) {
+							c.Ops = append(c.Ops, fmt.Sprintf("wdel %s %d", lib.Hex(c17Key(r)), seq))
+						} else {
+							c.Ops = append(c.Ops, fmt.Sprintf("wput %s %s %d", lib.Hex(c17Key(r)), lib.Hex(r.Bytes(r.Intn(12))), seq))
+						}
+						seq++
+					}
+				}
+				for j := r.Range(0, 3); j > 0; j-- {
+					switch r.Intn(4) {
+					case 0:
+						c.Ops = append(c.Ops, "wcut")
+						if seq > 0 {
+							cuts = append(cuts, seq-1)
+						}
+					case 1:
+						c.Ops = append(c.Ops, fmt.Sprintf("wtrunc %d", uint64(r.Intn(int(seq)+2))))
+						truncs++
+					default:
+						c.Ops = append(c.Ops, fmt.Sprintf("wput %s %s %d", lib.Hex(c17Key(r)), lib.Hex(r.Bytes(r.Intn(8))), seq))
+						seq++
+					}
+				}
+				c.Ops = append(c.Ops, "wsavel")
+				c.Tags = append(c.Tags, "late-save")
+			} else {
+				c.Ops = append(c.Ops, "wrot")
+			}
 			readOps()
 		}
 		if gaps && r.Chance(1, 4) {
@@ -774,7 +1078,13 @@ func c17Fixed(tier string) []lib.Case {
 				}
 				c.Ops = append(c.Ops, "scan "+lib.Hex(k), "rscan "+lib.Hex(k))
 			}
-			c.Ops = append(c.Ops, "rdoc", fmt.Sprintf("run %d %s", 18+mask%23, c17ShowEntries(es)), "runok", "runinfo", "info")
+			c.Ops = append(c.Ops, "rdoc", "saturate")
+			for _, k := range alpha {
+				for _, q := range [][]byte{k, c17Pred(k), c17Succ(k)} {
+					c.Ops = append(c.Ops, "sget "+lib.Hex(q))
+				}
+			}
+			c.Ops = append(c.Ops, fmt.Sprintf("run %d %s", 18+mask%23, c17ShowEntries(es)), "runok", "runinfo", "info")
 			cs = append(cs, c)
 		}
 	}
@@ -782,7 +1092,7 @@ func c17Fixed(tier string) []lib.Case {
 	cs = append(cs, lib.Case{Header: "M C17", Tags: []string{"D29"}, Ops: []string{"tbl -", "scan -", "rscan -", "get 61", "rget -", "run 100 -", "runok", "sel 0", "scan -", "rscan 6b", "runinfo", "info"}})
 	// D30: binary range keys through the JSON document
 	bin := []c17Entry{{k: []byte{0x80, 1, 0, 'a'}, v: []byte("x"), seq: 1}, {k: []byte{0x80, 2, 0, 'b'}, v: []byte("y"), seq: 2}, {k: []byte{0xff, 0xfe}, seq: 3, del: true}}
-	cs = append(cs, lib.Case{Header: "M C17", Tags: []string{"D30"}, Ops: []string{"tbl " + c17ShowEntries(bin), "rdoc", "rget 80010061", "rget fffe", "rscan 80", "rscan ff", "info"}})
+	cs = append(cs, lib.Case{Header: "M C17", Tags: []string{"D30"}, Ops: []string{"tbl " + c17ShowEntries(bin), "rdoc", "rget 80010061", "rget fffe", "rscan 80", "rscan ff", "docjson memory:///000000.sst", "info"}})
 	// D31: input ends on a chunk boundary
 	one := []c17Entry{{k: []byte("a"), v: bytes.Repeat([]byte("x"), 200), seq: 1}}
 	cs = append(cs, lib.Case{Header: "M C17", Tags: []string{"D31"}, Ops: []string{"run 100 " + c17ShowEntries(one), "runok", "sel 0", "get 61", "runinfo"}})
@@ -791,6 +1101,22 @@ func c17Fixed(tier string) []lib.Case {
 	// D27: truncate after a rotate that carried sealed segments / an active segment
 	cs = append(cs, lib.Case{Header: "M C17", Tags: []string{"D27"}, Ops: []string{"wnew 0 1000", "wput 6b31 76 1", "wcut", "wput 6b32 76 2", "wcut", "wrot", "wtrunc 1", "wrot", "wread 1", "wfile", "wstate"}})
 	cs = append(cs, lib.Case{Header: "M C17", Tags: []string{"D27"}, Ops: []string{"wnew 0 1000", "wput 6b31 76 1", "wcut", "wput 6b32 76 2", "wrot", "wput 6b33 76 3", "wcut", "wtrunc 1", "wrot", "wread 1", "wfile", "wstate"}})
+	// late save (seeded C17-5 situation): the rotated-away writer is saved only after its successor truncated the
+	// carried segments, cut and appended; the saved file must hold exactly what was appended before the Rotate
+	late := lib.Case{Header: "M C17", Tags: []string{"late-save"}, Ops: []string{"wnew 0 1000000"}}
+	for i := 1; i <= 8; i++ {
+		if i == 4 {
+			late.Ops = append(late.Ops, fmt.Sprintf("wdel %s %d", lib.Hex([]byte(fmt.Sprintf("key-%02d", i))), i))
+		} else {
+			late.Ops = append(late.Ops, fmt.Sprintf("wput %s %s %d", lib.Hex([]byte(fmt.Sprintf("key-%02d", i))), lib.Hex([]byte(fmt.Sprintf("value-%02d", i))), i))
+		}
+	}
+	late.Ops = append(late.Ops, "wrotl", "wtrunc 8", "wput "+lib.Hex([]byte("later-09"))+" "+lib.Hex([]byte("later-value-09"))+" 9", "wcut")
+	for i := 10; i <= 14; i++ {
+		late.Ops = append(late.Ops, fmt.Sprintf("wput %s %s %d", lib.Hex([]byte(fmt.Sprintf("later-%02d", i))), lib.Hex([]byte(fmt.Sprintf("later-value-%02d", i))), i))
+	}
+	late.Ops = append(late.Ops, "wsavel", "wread 0", "wread 3", "wread 8", "wfile", "wstate")
+	cs = append(cs, late)
 	return cs
 }
 
@@ -815,18 +1141,26 @@ func propC17() *lib.Prop {
 		},
 		Fixed: c17Fixed,
 		Gen: func(r *lib.Rng, tier string, i int) lib.Case {
-			switch i % 10 {
-			case 0, 1, 2, 3:
+			switch i % 20 {
+			case 0, 1, 2, 3, 4, 5, 6:
 				return c17GenTable(r, tier)
-			case 4, 5, 6:
+			case 7, 8, 9, 10, 11:
 				return c17GenRun(r, tier)
-			case 7, 8:
+			case 12, 13, 14, 15:
 				return c17GenWal(r, tier)
-			default:
+			case 16, 17:
 				return c17GenWalHex(r)
+			default:
+				return c17GenBigTable(r, tier)
 			}
 		},
 		Impl: c17Impl,
+		Extra: func() map[string]any {
+			return map[string]any{
+				"absent_gets_past_saturated_filter": c17PastBloom.Load(),
+				"absent_gets_past_real_filter":      c17RealFP.Load(),
+			}
+		},
 		Nontrivial: func(c lib.Case, impl []string) bool {
 			for _, t := range c.Tags {
 				if t == "multi-index" || t == "trunc+rotate" {
@@ -846,7 +1180,7 @@ func propC17() *lib.Prop {
 				return false
 			}
 			switch f[0] {
-			case "info", "runinfo", "wfile", "wstate", "wput", "wdel", "corrupt", "cget", "cscan":
+			case "info", "runinfo", "wfile", "wstate", "wput", "wdel", "corrupt", "cget", "cscan", "saturate", "docjson":
 				return true
 			}
 			return false
